@@ -14,8 +14,11 @@ from typing import Any, Iterable
 from . import boot
 
 VERIF = boot.VERIF
-EVIDENCE_DIR = os.path.join(VERIF, "evidence")
-REPLAY_DIR = os.path.join(VERIF, "replays")
+# VERIF_OUT_DIR (set only by tools/sens.py) keeps runs against mutated scratch copies from
+# overwriting the evidence / replay files of the real tree.
+_OUT = os.environ.get("VERIF_OUT_DIR") or VERIF
+EVIDENCE_DIR = os.path.join(_OUT, "evidence")
+REPLAY_DIR = os.path.join(_OUT, "replays")
 KNOWN_FILE = os.path.join(VERIF, "known_findings.json")
 
 
@@ -276,7 +279,7 @@ def _shard_entry(args):
 
 def _load_replays(prop: Prop) -> list[tuple[str, Any]]:
     cases = []
-    d = os.path.join(REPLAY_DIR, "known")
+    d = os.path.join(VERIF, "replays", "known")  # committed regression inputs
     if os.path.isdir(d):
         for fn in sorted(os.listdir(d)):
             if fn.startswith(prop.id + "-") and fn.endswith(".json"):
